@@ -324,8 +324,7 @@ class Globals(object):
         self.saved = dict(cwd=os.getcwd(), home=os.environ.get("HOME"), stage=os.environ.get("BEHAVE_STAGE"),
                           stdout=sys.stdout, stderr=sys.stderr, path=list(sys.path), level=root.level,
                           handlers=list(root.handlers), protocol=TagExpressionProtocol.current(),
-                          schema=ScenarioOutline.annotation_schema, defaults=dict(Configuration.defaults),
-                          userdata=dict(Configuration.defaults.get("userdata") or {}))
+                          schema=ScenarioOutline.annotation_schema)
         os.environ.pop("BEHAVE_STAGE", None)
         return self
 
@@ -347,19 +346,47 @@ class Globals(object):
         root.handlers[:] = s["handlers"]
         TagExpressionProtocol.use(s["protocol"])
         ScenarioOutline.annotation_schema = s["schema"]
-        Configuration.defaults.clear()
-        Configuration.defaults.update(s["defaults"])
-        Configuration.defaults["userdata"] = s["userdata"]
         return False
 
 
+class ClassDefaults(object):
+    """The class-level Configuration.defaults is part of what is under test (a construction must not write into it):
+    it is NOT restored between experiments, only once when the whole check is over."""
+
+    def __enter__(self):
+        from behave.configuration import Configuration
+        self.saved = dict(Configuration.defaults)
+        self.userdata = dict(Configuration.defaults.get("userdata") or {})
+        return self
+
+    def __exit__(self, *exc):
+        from behave.configuration import Configuration
+        Configuration.defaults.clear()
+        Configuration.defaults.update(self.saved)
+        if "userdata" in self.saved:
+            Configuration.defaults["userdata"] = self.userdata
+        return False
+
+
+def steps_of(spec):
+    return spec["steps"] if "steps" in spec else [spec]
+
+
 def exec_spec(spec, root):
-    """Run one experiment for real; returns its rows (without ids)."""
+    """Run one experiment for real; returns its rows (without ids).  A spec with "steps" is a history: its
+    constructions happen one after the other in this process, each with its own files, which are removed again."""
     t = spec["type"]
     if t == "define":
         return [observe_define_direct(spec["text"])]
     if t == "getter":
         return [observe_getter(spec)]
+    rows = []
+    for step in steps_of(spec):
+        rows.extend(exec_step(t, step, root))
+    return rows
+
+
+def exec_step(t, spec, root):
     vroot = root
     written = []
     with Globals():
@@ -384,7 +411,10 @@ def exec_spec(spec, root):
             try:
                 if t == "config":
                     from behave.configuration import Configuration
-                    result = Configuration(command_args=list(spec["argv"]))
+                    if spec.get("load_config", True):
+                        result = Configuration(command_args=list(spec["argv"]))
+                    else:
+                        result = Configuration(command_args=list(spec["argv"]), load_config=False)
                     if spec.get("post"):      # environment.py style late user data; -D must be re-applied on top
                         result.update_userdata(dict(spec["post"]["update_userdata"]))
                 else:   # "readcfg": the public reader of one configuration file, called with a path at some depth
@@ -627,6 +657,44 @@ class Plan(object):
                     self.add({"type": "config", "layout": DEPTHS[v % 2], "files": self.file_entries(layout, [items], v),
                               "argv": (argv + margv) if v % 3 else (margv + argv), "probes": [probe]})
 
+    # ---- (A2) histories: several constructions in one process; the first reads a file that assigns the option
+    def histories(self, cases, longer):
+        hist = [c for c in cases if c["k"] == "hist"]
+        ud_vals = {"d": [MISSING], "fv1": ["fx1"], "fv2": ["fx2"], "cv1": ["cx1"], "cv2": ["cx2"], "forced": [NONE]}
+        for o in self.opts + ["userdata"]:
+            kind = "userdata" if o == "userdata" else o.kind
+            mine = [c for c in hist if c["okind"] == kind]
+            if o != "userdata":
+                mine = [c for c in mine if all(con["cmd"] == "absent" or con["cmd"] in o.forms for con in c["cons"])]
+            short = [c for c in mine if len(c["cons"]) == 2]
+            rest = [c for c in mine if len(c["cons"]) > 2]
+            self.rnd.shuffle(rest)
+            for c in short + rest[:longer]:
+                steps = []
+                for n, con in enumerate(c["cons"]):
+                    v = self.tick()
+                    layout = LAYOUTS[1][(v + n) % len(LAYOUTS[1])][0] if con["files"] else None
+                    files, argv = [], []
+                    eff = con["files"] if con["load"] else []
+                    if o == "userdata":
+                        a = con["files"][0] if con["files"] else "absent"
+                        if layout:
+                            files = [{"where": layout[0], "name": layout[1], "behave": [],
+                                      "userdata": [("x", ud_vals["f" + a][0])] if a != "absent" else ([("y", "fy1")] if v % 2 else None)}]
+                        if con["cmd"] != "absent":
+                            argv = ["-D", "x=%s" % ud_vals["c" + con["cmd"]][0]]
+                        probe = {"row": "layer", "dest": "userdata", "name": "x", "okind": "userdata", "islist": False, "pathy": False,
+                                 "lower": False, "files": eff, "cmd": con["cmd"], "mfiles": ["absent"] * len(eff), "mcmd": "absent",
+                                 "hasmode": False, "mode": "", "vals": ud_vals, "form": "history%d" % n}
+                    else:
+                        if layout:
+                            files = self.file_entries([layout], [[(o, a)] if a != "absent" else [] for a in con["files"]], v)
+                        form, argv = self.argv_for(o, con["cmd"], v)
+                        probe = self.layer_probe(o, eff, con["cmd"], "history%d" % n)
+                    steps.append({"layout": DEPTHS[(v + n) % 2], "files": files, "argv": list(argv), "load_config": con["load"],
+                                  "probes": [probe]})
+                self.add({"type": "config", "steps": steps})
+
     # ---- (C) seeded subsets of options in one or two files x subsets on the command line
     def subsets(self, count):
         skip = {"wip", "steps_catalog", "quiet"}
@@ -791,11 +859,21 @@ def describe(spec, probe_ix):
         return "direct", "parse_user_define(%r)" % spec["text"]
     if t == "getter":
         return "g=%s|present=%s%s" % (spec["g"], spec["present"], "|pre" if spec.get("pre") else ""), "UserData getter %s on %r" % (spec["g"], spec["text"])
+    whole, history = spec, None
+    if "steps" in spec:
+        history = [{"files": [{"where": e["where"], "name": e["name"], "behave": e["behave"], "userdata": e.get("userdata")} for e in st["files"]],
+                    "argv": st["argv"], "load_config": st.get("load_config", True), "cwd": "/".join(st["layout"]["cwd"])} for st in spec["steps"]]
+        for st in spec["steps"]:
+            if probe_ix < len(st["probes"]):
+                spec = dict(st, type=t)
+                break
+            probe_ix -= len(st["probes"])
     p = spec["probes"][probe_ix]
-    files = "+".join("%s:%s" % (e["where"], e["name"]) for e in spec["files"]) or "nofile"
     shown = {"cwd": "/".join(spec["layout"]["cwd"]), "home": "/".join(spec["layout"]["home"]), "argv": spec.get("argv"),
              "call": ("read_configuration(%s)" % "/".join(spec["path"]["segs"])) if t == "readcfg" else "Configuration(argv)",
              "files": [{"where": e["where"], "dir": e.get("dir"), "name": e["name"], "behave": e["behave"], "userdata": e.get("userdata")} for e in spec["files"]]}
+    if history:
+        shown["constructions_in_this_process"] = history
     if p["row"] == "layer":
         what = p.get("name") if p["okind"] in ("userdata", "udupdate") else p["dest"]
         sig = "dest=%s|kind=%s|form=%s" % (what, p["okind"], p["form"])
@@ -844,6 +922,7 @@ def run(chk):
     opts = build_options(chk)
     plan = Plan(chk, opts)
     plan.single_option(layer_cases, 2 if chk.quick() else 8)
+    plan.histories(cases, 0 if chk.quick() else 40)
     plan.coupled(layer_cases)
     plan.subsets(120 if chk.quick() else 4000)
     plan.couples(cases)
@@ -857,11 +936,12 @@ def run(chk):
     rows, meta = [], {}
     here = os.getcwd()
     try:
-        for spec in plan.specs:
-            for k, row in enumerate(exec_spec(spec, root)):
-                row["id"] = len(rows) + 1
-                rows.append(row)
-                meta[row["id"]] = (spec, k)
+        with ClassDefaults():
+            for spec in plan.specs:
+                for k, row in enumerate(exec_spec(spec, root)):
+                    row["id"] = len(rows) + 1
+                    rows.append(row)
+                    meta[row["id"]] = (spec, k)
     finally:
         os.chdir(here)
         shutil.rmtree(root, ignore_errors=True)
@@ -878,7 +958,8 @@ def run(chk):
     for row in rows:
         key = row["kind"] if row["kind"] != "layer" else ("userdata" if row["okind"] in ("userdata", "udupdate") else "layer")
         kinds[key] = kinds.get(key, 0) + 1
-    chk.impl_traces = len(plan.specs)
+    chk.impl_traces = sum(len(steps_of(sp)) if sp["type"] == "config" else 1 for sp in plan.specs)
+    chk.extra["histories"] = sum(1 for sp in plan.specs if "steps" in sp)
     chk.evaluations = len(rows)
     chk.exhaustive = True
     chk.extra["rows_by_kind"] = kinds
@@ -892,7 +973,9 @@ def run(chk):
         chk.sample({"input": json.loads(describe(spec, k)[1]) if spec["type"] in ("config", "readcfg") else describe(spec, k)[1],
                     "observed": observed_of(byid[rid])})
     chk.rule = ("every option of behave's config-file schema x every TLC layer case of its kind (file assignments in {absent,v1,v2}^n, "
-                "n<=%d, x command line in {absent,v1,v2}) x file name/location variants; option x forcing mode switch pairs; seeded "
+                "n<=%d, x command line in {absent,v1,v2}) x file name/location variants; histories of 2 (thorough: also 3) constructions in one "
+                "process (first reads a file assigning the option; later ones: no file, a file omitting/assigning it, load_config=False, any "
+                "command line); option x forcing mode switch pairs; seeded "
                 "option subsets; all -D strings up to %d characters over {a,=,blank,\",'} plus every rendering of the documented forms; "
                 "all path shapes up to %d segments x 7 file directories x 2 cwd depths; format/outfiles counts 0..3; all getter texts up to "
                 "%d characters over {1,0,7,-,+,.,blank,x} plus boolean words; distinct = distinct experiments (real executions)"
@@ -914,7 +997,8 @@ def replay(chk, payload):
     root = os.path.realpath(tempfile.mkdtemp(prefix="verif-c20-"))
     here = os.getcwd()
     try:
-        rows = exec_spec(spec, root)
+        with ClassDefaults():
+            rows = exec_spec(spec, root)
     finally:
         os.chdir(here)
         shutil.rmtree(root, ignore_errors=True)
